@@ -125,6 +125,8 @@ def check(case):
             Xtrain[:] = X
         if history in ("used_buffer_array", "used_buffer_frame"):
             Xpred = K.used_buffer(det, X, history.endswith("frame"))
+        elif history and history.startswith("predicted_on"):
+            K.related_predict(det, Xpred, history)
         y = det.predict(Xpred)
         table = det.scores
         thr = float(det.threshold_)
